@@ -298,8 +298,23 @@ func (d *cnDriver) genProofs(h int64, nonceBump map[string]uint64) []cnTxMeta {
 			continue // (now and then a node proves twice: same proof, accepted without effect)
 		}
 		early := h <= d.vrf.submitAfter
-		if lazy && d.rng.Intn(10) < 7 {
-			continue
+		if lazy {
+			// ... while a node whose registration has lapsed (still on record, not electable) is eager to prove
+			isLapsed := false
+			if nodes, ok := d.lastReg["nodes"].([]map[string]any); ok {
+				for _, x := range nodes {
+					if exp, _ := x["exp"].(int64); x["id"] == v.name && exp < d.vrf.epoch {
+						isLapsed = true
+					}
+				}
+			}
+			if !isLapsed && d.rng.Intn(10) < 9 {
+				continue
+			}
+			if isLapsed && !early {
+				add(v.name, v.name, "ok", d.vrf.epoch)
+				continue
+			}
 		}
 		switch x := d.rng.Intn(20); {
 		case early && x > 1:
